@@ -307,6 +307,8 @@ def run_lex(rep, prop, extra_coverage=None, budget_override=None):
                 props = ST.props_of(mm['aspects'])
                 if 'builtin' in d.tags and ({'match', 'lang'} & set(mm['aspects'])):
                     props.add('C13')
+                if 'class' in d.tags and ({'match', 'lang'} & set(mm['aspects'])):
+                    props.add('C11')
                 if prop not in props:
                     for p in props:
                         other[p] = other.get(p, 0) + 1
